@@ -24,7 +24,7 @@ def handleSymm (args : List String) : Verdict :=
     let nev ← nat
     let ev ← many rat nev
     let V ← mat
-    let kinds := ["diagdom", "clustered", "degenerate", "negative", "wide", "decoupled"]
+    let kinds := ["diagdom", "clustered", "degenerate", "negative", "wide", "decoupled", "upstream"]
     let tag := s!"symm-{kinds.getD kind "?"}-{corr}-{upd}{if mss > 0 then "-restart" else ""}{if itmax < 50 then "-fewiter" else ""}"
     if status == "error" then pure { tag := "symm-exception-" ++ kinds.getD kind "?" } else
     let cols := transpose V
